@@ -11,6 +11,7 @@ import ast
 import sympy as sp
 from ..core import AnalysisError, norm, dotted, calls_in, walk_no_nested, const_value, parent, enclosing_stmt
 from ..cfg import ENTRY, EXIT, RAISE
+from ..flow import guard_chain as _guard_chain
 from ..flow import Flow, emptiness_test_kind
 from ..alg import Sym, Unsupported, _binop
 
@@ -125,10 +126,20 @@ def rule_units(ctx):
             ok = cond_ok and unit_name == un and bool(ret) and norm(ret[0].value) in ("%s * %s" % (ln, tf), "%s * %s" % (tf, ln))
     if loop:
         ctx.ob("to_kilometers.convert", ok, fact, "return length * factor for the row whose spellings contain the unit", node=loop[0] if loop else f.node, func=f)
-    first = f.body[0] if f.body else None
-    okn = isinstance(first, ast.If) and "isinstance(%s, Number)" % p in norm(first.test) and len(first.body) == 1 \
-        and isinstance(first.body[0], ast.Return) and norm(first.body[0].value) == p
-    ctx.ob("to_kilometers.number", okn, "first statement: %s" % (norm(first)[:70] if first is not None else None),
+    # a number: whatever guards come first, the only return reachable for it hands the argument back
+    nflow = Flow(f)
+    asm = {"isinstance(%s, Number)" % p: True, "isinstance(%s, (Number, str))" % p: True, "isinstance(%s, (str, Number))" % p: True, "isinstance(%s, str)" % p: False,
+           "isinstance(%s, (int, float))" % p: True}
+    live = [r_ for r_ in nflow.stmts if isinstance(r_, ast.Return) and nflow.live_under(r_, asm, stop=(p,))]
+    raises = [r_ for r_ in nflow.stmts if isinstance(r_, ast.Raise) and nflow.live_under(r_, asm, stop=(p,))
+              and all(nflow.decide_under(t_, asm, at=t_, stop=(p,)) is not None for t_, _ in _guard_chain(r_, implicit=True)[:1])]
+    first = live[0] if live else None
+    okn = len(live) >= 1 and str(norm(nflow.resolve_under(live[0].value, asm, at=live[0], stop=(p,)))) == p and all(
+        nflow._order(r_) > nflow._order(live[0]) for r_ in live[1:])
+    # (returns after the first live one are behind it: `if isinstance(x, Number): return x` ends the path)
+    first_is_guarded = bool(live) and any(str(norm(t_)) == "isinstance(%s, Number)" % p and pol for t_, pol in _guard_chain(live[0], implicit=True))
+    okn = okn and first_is_guarded
+    ctx.ob("to_kilometers.number", okn, "for a number: %s" % (norm(first)[:70] if first is not None else None),
            "numbers are kilometres already and pass through unchanged", node=first or f.node, func=f)
 
 
